@@ -130,6 +130,7 @@ pub uninterp spec fn sp_field(r: &Record, sm: &SymbolMap, name: EcoString) -> Op
 pub uninterp spec fn sp_rec_targ(r: &Record, name: EcoString) -> Option<TemplateArgumentId>;
 pub uninterp spec fn sp_mc_targ(m: &Multiclass, name: EcoString) -> Option<TemplateArgumentId>;
 pub uninterp spec fn sp_def(sm: &SymbolMap, name: EcoString) -> Option<RecordId>;
+pub uninterp spec fn sp_defset(sm: &SymbolMap, name: EcoString) -> Option<DefsetId>;
 pub assume_specification [SymbolMap::record] (sm: &SymbolMap, id: RecordId) -> (r: &Record) ensures *r == sp_record(sm, id);
 pub assume_specification [SymbolMap::multiclass] (sm: &SymbolMap, id: MulticlassId) -> (r: &Multiclass) ensures *r == sp_multiclass(sm, id);
 /// own and inherited fields (Record::find_field walks the parent classes)
@@ -137,6 +138,7 @@ pub assume_specification [Record::find_field] (r: &Record, sm: &SymbolMap, name:
 pub assume_specification [Record::find_template_arg] (r: &Record, name: &EcoString) -> (f: Option<TemplateArgumentId>) ensures f == sp_rec_targ(r, *name);
 pub assume_specification [Multiclass::find_template_arg] (m: &Multiclass, name: &EcoString) -> (f: Option<TemplateArgumentId>) ensures f == sp_mc_targ(m, *name);
 pub assume_specification [SymbolMap::find_def] (sm: &SymbolMap, name: &EcoString) -> (f: Option<RecordId>) ensures f == sp_def(sm, *name);
+pub assume_specification [SymbolMap::find_defset] (sm: &SymbolMap, name: &EcoString) -> (f: Option<DefsetId>) ensures f == sp_defset(sm, *name);
 // ---- C17: ranges are paired with the file on top of the include stack; identifier ranges come from the identifier's own token
 pub assume_specification<M0: Into<String>> [Diagnostic::new] (location: FileRange, message: M0) -> (r: Diagnostic) ensures r.location == location;
 pub assume_specification [FileRange::new] (file: FileId, range: syntax::parser::TextRange) -> (r: FileRange) ensures r.file == file, r.range == range;
@@ -156,7 +158,8 @@ pub axiom fn ax_into_sym()
     ensures <VariableId as IntoSpec<SymbolId>>::obeys_into_spec(), forall|id: VariableId| #[trigger] <VariableId as IntoSpec<SymbolId>>::into_spec(id) == SymbolId::VariableId(id),
             <RecordFieldId as IntoSpec<SymbolId>>::obeys_into_spec(), forall|id: RecordFieldId| #[trigger] <RecordFieldId as IntoSpec<SymbolId>>::into_spec(id) == SymbolId::RecordFieldId(id),
             <TemplateArgumentId as IntoSpec<SymbolId>>::obeys_into_spec(), forall|id: TemplateArgumentId| #[trigger] <TemplateArgumentId as IntoSpec<SymbolId>>::into_spec(id) == SymbolId::TemplateArgumentId(id),
-            <RecordId as IntoSpec<SymbolId>>::obeys_into_spec(), forall|id: RecordId| #[trigger] <RecordId as IntoSpec<SymbolId>>::into_spec(id) == SymbolId::RecordId(id);
+            <RecordId as IntoSpec<SymbolId>>::obeys_into_spec(), forall|id: RecordId| #[trigger] <RecordId as IntoSpec<SymbolId>>::into_spec(id) == SymbolId::RecordId(id),
+            <DefsetId as IntoSpec<SymbolId>>::obeys_into_spec(), forall|id: DefsetId| #[trigger] <DefsetId as IntoSpec<SymbolId>>::into_spec(id) == SymbolId::DefsetId(id);
 /// model of `slice.iter().rev()`: items yielded so far / the slice it walks backwards
 pub uninterp spec fn rev_pos<I>(e: &core::iter::Rev<I>) -> nat;
 pub uninterp spec fn rev_items<I: Iterator>(e: &core::iter::Rev<I>) -> Seq<<I as Iterator>::Item>;
